@@ -110,7 +110,7 @@ Ltac inv_res H := injection H as <- <- <-.
 (* case-splitting tactic: destructs every scrutinee appearing in the hypothesis H : local_step .. = (..) *)
 Ltac blast H :=
   unfold local_step in H; cbn in H;
-  unfold db_step, snap_step, txn_step, iter_step, read_sched, release_muts in H; cbn in H;
+  unfold db_step, snap_step, txn_step, iter_step, read_sched, sched_bg, release_muts in H; cbn in H;
   repeat (match type of H with
           | context [match nth_error ?l ?h with _ => _ end] => destruct (nth_error l h) eqn:?
           | context [match dmode ?d with _ => _ end] => destruct (dmode d) eqn:?
@@ -121,7 +121,7 @@ Ltac blast H :=
 
 (* mode transitions of one call: unchanged, RW -> RSwitched, or open -> Closed *)
 Lemma local_step_mode : forall db h m db' ms o,
-  local_step db h m = (db', ms, o) ->
+  local_step true db h m = (db', ms, o) ->
   dmode db' = dmode db \/ (dmode db = RW /\ dmode db' = RSwitched /\ m = DbSetReadOnly) \/
   (dmode db <> Closed /\ dmode db' = Closed /\ m = DbClose).
 Proof.
@@ -137,7 +137,7 @@ Lemma has_bg_not : forall m b, has_bg m && b = true -> m = ROpened \/ m = Closed
 Proof. intros m b H [->| ->]; cbn in H; discriminate. Qed.
 
 Lemma local_step_ok : forall db h m db' ms o,
-  db_ok db -> local_step db h m = (db', ms, o) -> db_ok db'.
+  db_ok db -> local_step true db h m = (db', ms, o) -> db_ok db'.
 Proof.
   intros db h m db' ms o [Hbg Htx] H.
   destruct m; blast H; inv_res H; try (constructor; assumption);
@@ -169,14 +169,14 @@ Ltac rw_eqs :=
 (* ---------------------------------------------------------------- what one call does on a closed DB *)
 
 Lemma local_closed : forall db h m db' ms o,
-  db_ok db -> dmode db = Closed -> local_step db h m = (db', ms, o) ->
+  db_ok db -> dmode db = Closed -> local_step true db h m = (db', ms, o) ->
   ms = [] /\ o = closed_outcome db h m /\ dmode db' = Closed /\ dbg db' = dbg db /\ dseek db' = dseek db /\
   (recv m = RDb -> m <> DbNewIterator -> db' = db).
 Proof.
   intros db h m db' ms o [Hbg Htx] M H.
   assert (Hd : all_done (dtxns db)) by (apply Htx; congruence).
   destruct m; unfold local_step in H; cbn in H;
-    unfold db_step, snap_step, txn_step, iter_step, read_sched, release_muts in H; rewrite ?M in H;
+    unfold db_step, snap_step, txn_step, iter_step, read_sched, sched_bg, release_muts in H; rewrite ?M in H;
     blast H; inv_res H; unfold closed_outcome; cbn; rw_eqs; cbn; rw_eqs;
     repeat split; try reflexivity; try congruence; try (intros; discriminate);
     try (exfalso; eapply nth_open_txn; eassumption).
@@ -185,7 +185,7 @@ Qed.
 (* ---------------------------------------------------------------- what one call does on a read-only DB *)
 
 Lemma local_ro : forall db h m db' ms o,
-  db_ok db -> is_ro (dmode db) = true -> local_step db h m = (db', ms, o) ->
+  db_ok db -> is_ro (dmode db) = true -> local_step true db h m = (db', ms, o) ->
   (recv m = RDb -> takes_write_lock m = true -> db' = db /\ ms = [] /\ o = ErrReadOnly) /\
   (recv m = RDb -> db_read m = true -> ms = [] /\ o = Ok /\ dmode db' = dmode db) /\
   (m = DbClose -> o = Ok /\ dmode db' = Closed) /\
@@ -198,7 +198,7 @@ Proof.
   { clear -Hd. induction Hd as [|t l Ht _ IH]; cbn; [reflexivity|]. now rewrite Ht, IH. }
   destruct (dmode db) eqn:MD; try discriminate M;
     destruct m; unfold local_step in H; cbn in H;
-    unfold db_step, snap_step, txn_step, iter_step, read_sched, release_muts, close_muts in H; rewrite ?MD, ?Hc in H;
+    unfold db_step, snap_step, txn_step, iter_step, read_sched, sched_bg, release_muts, close_muts in H; rewrite ?MD, ?Hc in H;
     blast H; inv_res H; cbn;
     repeat split; try reflexivity; try congruence; try (intros; discriminate); auto;
     try (exfalso; eapply nth_open_txn; eassumption);
@@ -210,7 +210,8 @@ Qed.
 
 (* ---------------------------------------------------------------- quiet DBs issue no mutation *)
 
-(* closed, opened read-only, or switched to read-only with seek compaction off and background work drained *)
+(* closed, opened read-only, or switched to read-only with the background work drained (the repaired code: the
+   compaction goroutines start nothing once the DB is read-only, whatever the seek-compaction option) *)
 (* the iterator pins the current version (or none): releasing it removes no file *)
 Definition pins_current (v : nat) (i : iter) : bool :=
   match ik i with
@@ -221,7 +222,7 @@ Definition pins_current (v : nat) (i : iter) : bool :=
 Definition quietb (db : dbrec) : bool :=
   match dmode db with
   | Closed | ROpened => true
-  | RSwitched => negb (dseek db) && negb (dbg db) && forallb (pins_current (dver db)) (diters db)
+  | RSwitched => negb (dbg db) && forallb (pins_current (dver db)) (diters db)
   | RW => false
   end.
 
@@ -246,7 +247,7 @@ Proof.
 Qed.
 
 Lemma local_quiet : forall db h m db' ms o,
-  db_ok db -> quietb db = true -> local_step db h m = (db', ms, o) -> ms = [] /\ quietb db' = true.
+  db_ok db -> quietb db = true -> local_step true db h m = (db', ms, o) -> ms = [] /\ quietb db' = true.
 Proof.
   intros db h m db' ms o [Hbg Htx] Q H.
   assert (Hd : all_done (dtxns db)) by (apply Htx; intros E; unfold quietb in Q; rewrite E in Q; discriminate).
@@ -257,16 +258,16 @@ Proof.
   - (* ROpened *)
     assert (B : dbg db = false) by auto.
     destruct m; unfold local_step in H; cbn in H;
-      unfold db_step, snap_step, txn_step, iter_step, read_sched, release_muts, close_muts in H; rewrite ?MD, ?Hc, ?B in H;
+      unfold db_step, snap_step, txn_step, iter_step, read_sched, sched_bg, release_muts, close_muts in H; rewrite ?MD, ?Hc, ?B in H;
       blast H; inv_res H; cbn; rewrite ?MD; auto;
       try (exfalso; eapply nth_open_txn; eassumption).
-  - (* RSwitched, seeks off, drained, every live iterator pins the current version *)
-    apply andb_true_iff in Q. destruct Q as [Q12 Q3]. apply andb_true_iff in Q12. destruct Q12 as [Q1 Q2].
-    apply negb_true_iff in Q1. apply negb_true_iff in Q2.
+  - (* RSwitched, drained, every live iterator pins the current version *)
+    apply andb_true_iff in Q. destruct Q as [Q2 Q3].
+    apply negb_true_iff in Q2.
     destruct m; unfold local_step in H; cbn in H;
-      unfold db_step, snap_step, txn_step, iter_step, read_sched, release_muts, close_muts in H;
-      rewrite ?MD, ?Hc, ?Q1, ?Q2 in H;
-      blast H; inv_res H; cbn; rewrite ?MD, ?Q1, ?Q2; cbn;
+      unfold db_step, snap_step, txn_step, iter_step, read_sched, sched_bg, release_muts, close_muts in H;
+      rewrite ?MD, ?Hc, ?Q2 in H; cbn [negb andb] in H;
+      blast H; inv_res H; cbn; rewrite ?MD, ?Q2; cbn;
       try (exfalso; eapply nth_open_txn; eassumption);
       try (exfalso; eapply pins_no_release; [eapply forallb_nth; eassumption | eassumption | eassumption]);
       (split; [reflexivity|]); auto;
@@ -279,7 +280,7 @@ Proof.
   - (* Closed *)
     assert (B : dbg db = false) by auto.
     destruct m; unfold local_step in H; cbn in H;
-      unfold db_step, snap_step, txn_step, iter_step, read_sched, release_muts, close_muts in H; rewrite ?MD, ?Hc, ?B in H;
+      unfold db_step, snap_step, txn_step, iter_step, read_sched, sched_bg, release_muts, close_muts in H; rewrite ?MD, ?Hc, ?B in H;
       blast H; inv_res H; cbn; rewrite ?MD; auto;
       try (exfalso; eapply nth_open_txn; eassumption).
 Qed.
@@ -289,7 +290,7 @@ Proof.
   intros db [Hbg _] Q. unfold drain_db, quietb in *.
   destruct (dmode db) eqn:MD; try discriminate Q.
   - rewrite Hbg; auto.
-  - apply andb_true_iff in Q. destruct Q as [Q12 _]. apply andb_true_iff in Q12. destruct Q12 as [_ Q2].
+  - apply andb_true_iff in Q. destruct Q as [Q2 _].
     apply negb_true_iff in Q2. now rewrite Q2.
   - rewrite Hbg; auto.
 Qed.
@@ -298,14 +299,14 @@ Qed.
 
 Lemma local_snap_released : forall db h m,
   nth_error (dsnaps db) h = Some true -> m = SnGet \/ m = SnHas \/ m = SnNewIterator ->
-  exists db', local_step db h m = (db', [], ErrSnapshotReleased) /\ dmode db' = dmode db /\ dsnaps db' = dsnaps db.
+  exists db', local_step true db h m = (db', [], ErrSnapshotReleased) /\ dmode db' = dmode db /\ dsnaps db' = dsnaps db.
 Proof.
   intros db h m H [->|[->| ->]]; unfold local_step; cbn; rewrite H; cbn; eexists; split; try reflexivity; auto.
 Qed.
 
 Lemma local_iter_released : forall db h i m,
   nth_error (diters db) h = Some i -> irel i = true -> ierr i = Ok -> it_move m = true ->
-  local_step db h m =
+  local_step true db h m =
     (set_iters db (upd (diters db) h (mkIter (ik i) true ErrIterReleased (ihasr i) (iver i))), [], ErrIterReleased).
 Proof.
   intros db h i m H R E M. destruct m; try discriminate M; unfold local_step; cbn; rewrite H; cbn;
@@ -315,7 +316,7 @@ Qed.
 Lemma local_iter_sticky : forall db h i m,
   nth_error (diters db) h = Some i -> ierr i <> Ok ->
   it_move m = true \/ m = ItValid \/ m = ItError \/ m = ItKey \/ m = ItValue ->
-  local_step db h m = (db, [], ierr i).
+  local_step true db h m = (db, [], ierr i).
 Proof.
   intros db h i m H E M.
   destruct M as [M|[->|[->|[->| ->]]]]; try (unfold local_step; cbn; rewrite H; reflexivity).
@@ -324,12 +325,12 @@ Proof.
 Qed.
 
 Lemma local_iter_setreleaser_released : forall db h i b,
-  nth_error (diters db) h = Some i -> irel i = true -> local_step db h (ItSetReleaser b) = (db, [], Panics).
+  nth_error (diters db) h = Some i -> irel i = true -> local_step true db h (ItSetReleaser b) = (db, [], Panics).
 Proof. intros db h i b H R. unfold local_step; cbn; rewrite H; cbn. unfold iter_step. now rewrite R. Qed.
 
 Lemma local_txn_done : forall db h t m,
   nth_error (dtxns db) h = Some t -> tdone t = true -> recv m = RTxn ->
-  exists db', local_step db h m = (db', [],
+  exists db', local_step true db h m = (db', [],
     match m with
     | TrWrite true | TrDiscard => Ok
     | TrCommit => if is_closed (dmode db) then ErrClosed else ErrTransactionDone
